@@ -31,6 +31,18 @@ Theorem C16_success_is_real : forall s, reachable next i0 s -> ok_only_after_suc
 Proof. exact ok_only_after_success_always. Qed.
 Print Assumptions C16_success_is_real.
 
+(* the handler thread is never parked on a signalling channel: when nothing internal can move it has
+   not been invoked, is reading transactions, or has returned; once its stream ended it returns *)
+Theorem C16_handler_parks_only_reading : forall s, reachable next i0 s -> tau_quiescent s = true ->
+  let h := hnd (decode s) in h = H0 \/ h = HProc \/ h = HDone.
+Proof. exact handler_parks_only_reading_prop. Qed.
+Print Assumptions C16_handler_parks_only_reading.
+
+Theorem C16_ended_handler_returns : forall s, reachable next i0 s -> tau_quiescent s = true ->
+  hnd (decode s) = HSendC \/ hnd (decode s) = HDone -> hnd (decode s) = HDone.
+Proof. exact ended_handler_returns. Qed.
+Print Assumptions C16_ended_handler_returns.
+
 Theorem C16_capacities : capS = 2 /\ capC = 2.
 Proof. exact capacities. Qed.
 Print Assumptions C16_capacities.
